@@ -1,17 +1,229 @@
-(* C19 — copy and move preserve content identity without touching content. *)
+(* C19 — copy and move preserve content identity without touching content.
+   Model: Repo/Ext.v (copy_plan / copy_apply / move_plan / move_apply over Repo/Model.v); proofs: Repo/ExtProofs.v.
+   The theorems speak about EVERY repository state that satisfies the well-formedness predicates
+     wf_fs   (the inode table only holds numbers below next_ino),
+     wf_recs (entity keys are distinct and below next_ent, no two records have the same path),
+   every command line (options, source, destination) and every outcome.
+   [holds f a c] = the cache object at address a is a regular file with bytes c ("the committed bytes"). *)
 From Coq Require Import List Bool NArith.
-From XV Require Import Base.Amap Base.Bytes Repo.Model Repo.Ext Repo.ExtProofs.
+From XV Require Import Base.Amap Base.Bytes Repo.Model Repo.Ext Repo.ExtProofs Repo.ExtReach.
 Import ListNotations.
+Local Open Scope N_scope.
+
+(* ---- 1. copy: every planned pair (source record cs_rec c, destination cd_path c) ------------------------------------
+   the destination is tracked with the source's digest, text-or-binary flag, metadata and (unless --as) method
+   [copied_as]; OUTSIDE the cross-extension class its address IS the source's, so no object is created or
+   touched (the object table is literally unchanged and every object keeps its bytes), and unless --no-recheck
+   or a panic the destination reads the committed bytes.  Destinations must be pairwise distinct (two sources
+   with one --name-only destination are outside the property). *)
+Theorem copy_shares_object o src dst r r' oc plan sk :
+  wf_fs (xfs r) -> wf_recs (base r) ->
+  copy_plan o src dst r = CPlanned plan sk -> NoDup (map cd_path plan) ->
+  copy_cmd o src dst r = (r', oc) ->
+  objs (xfs r') = objs (xfs r) /\ (forall a b, holds (xfs r) a b -> holds (xfs r') a b) /\
+  wf_recs (base r') /\ wf_fs (xfs r') /\
+  forall c, In c plan -> copy_result o r r' oc c.
+Proof. exact (copy_cmd_shares o src dst r r' oc plan sk). Qed.
+
+Check copy_result : copy_opts -> xrepo -> xrepo -> outcome -> cpair -> Prop.
+Print copy_result.
+Print copied_as.
+
+(* what is planned: selected, recorded file sources that are not modified; the destination named on the
+   command line; without --force only destinations that are not recorded yet *)
+Theorem copy_plans_sources o src dst r plan sk :
+  copy_plan o src dst r = CPlanned plan sk ->
+  forall c, In c plan ->
+    plan_acc (recs (base r)) c /\ (exists e, In (e, cs_rec c) (sources r src)) /\ changed r (cs_rec c) = false /\
+    cd_path c = (if ends_slash dst then dest_path (c_name_only o) (removelast dst) (cs_rec c) else dst) /\
+    (c_cforce o = false -> pair_taken c = false /\ ws_lexists (xfs r) (cd_path c) = false).
+Proof. exact (copy_plan_pairs o src dst r plan sk). Qed.
+
+(* ---- 2. move ------------------------------------------------------------------------------------------------------------ *)
+(* the number of tracked files is unchanged; no object is touched; every source path is untracked afterwards and
+   the SAME entity is recorded at the destination with its digest, history, text-or-binary flag [move_result];
+   when the command succeeds every source path is absent from the workspace *)
+Theorem move_preserves_count fl o src dst r r' oc l :
+  wf_fs (xfs r) -> wf_recs (base r) -> move_plan src dst r = MPlanned l -> move_cmd fl o src dst r = (r', oc) ->
+  length (recs (base r')) = length (recs (base r)) /\
+  objs (xfs r') = objs (xfs r) /\ (forall a b, holds (xfs r) a b -> holds (xfs r') a b) /\
+  (forall e x d, In (e, x, d) l -> move_result r r' e x d) /\
+  (oc = Ok -> forall e x d, In (e, x, d) l -> ws_exists (xfs r') (r_path x) = false).
+Proof. exact (move_cmd_spec fl o src dst r r' oc l). Qed.
+Print move_result.
+
+(* ---- 3. refusals: the repository is returned unchanged ------------------------------------------------------------- *)
+Theorem refuses :
+  (forall o src dst r, existsb (changed r) (map snd (sources r src)) = true -> copy_cmd o src dst r = (r, Err)) /\
+  (forall o src dst r, ends_slash dst = false -> c_cforce o = false -> stored r dst = true ->
+      exists oc, copy_cmd o src dst r = (r, oc) /\ oc <> Ok) /\
+  (forall fl o src dst r, existsb (fun ex => changed r (snd ex)) (sources r src) = true -> move_cmd fl o src dst r = (r, Err)) /\
+  (forall fl o src dst r, ends_slash dst = false -> stored r dst = true ->
+      exists oc, move_cmd fl o src dst r = (r, oc) /\ oc <> Ok) /\
+  (* (the repair of P4) something untracked is at the destination *)
+  (forall o src dst r, ends_slash dst = false -> c_cforce o = false -> ws_lexists (xfs r) dst = true ->
+      exists oc, copy_cmd o src dst r = (r, oc) /\ oc <> Ok) /\
+  (forall fl o src dst r, ends_slash dst = false -> ws_lexists (xfs r) dst = true ->
+      exists oc, move_cmd fl o src dst r = (r, oc) /\ oc <> Ok).
+Proof.
+  exact (conj copy_refuses_modified (conj copy_refuses_tracked (conj move_refuses_modified (conj move_refuses_tracked
+        (conj copy_refuses_existing move_refuses_existing))))).
+Qed.
+(* a directory destination of copy refuses the conflicting pair only: it is not in the plan (copy_plans_sources,
+   last clause) and records outside the planned destinations are untouched (copy_apply_shares) *)
+
+(* ---- 4. the source need not be in the workspace ------------------------------------------------------------------------ *)
+Theorem absent_source_ok o src dst r e x dg c :
+  wf_fs (xfs r) -> wf_recs (base r) ->
+  sources r src = [(e, x)] -> ends_slash dst = false -> stored r dst = false ->
+  ws_meta (xfs r) (r_path x) = None ->
+  r_digest x = Some dg -> extension dst = extension (r_path x) -> holds (xfs r) (cache_addr (r_path x) dg) c ->
+  ws_lexists (xfs r) dst = false ->
+  exists r', copy_cmd o src dst r = (r', Ok) /\
+    (exists e' y, In (e', y) (recs (base r')) /\ copied_as o x y dst) /\
+    (c_no_recheck o = false -> ws_read (xfs r') dst = Some c).
+Proof. exact (copy_absent_source o src dst r e x dg c). Qed.
+
+(* ---- 5. ... for every reachable repository -------------------------------------------------------------------------------
+   [xreach fl r]: r is reached from an initialised repository by a history of user writes / deletions / touches,
+   track / carry-in / recheck, copy / move / remove / untrack, every step outside the known classes ([xclean]:
+   the monitor `unclean` of Repo/Inv.v for the core commands, pairwise distinct destinations for copy).
+   Repo/ExtReach.v proves by induction over the history that every such r satisfies wf_fs, objs_bounded, wf_recs
+   (through INV of Repo/Inv.v, which the four commands preserve). *)
+Theorem copy_shares_object_reachable fl o src dst r r' oc plan sk :
+  xreach fl r -> copy_plan o src dst r = CPlanned plan sk -> NoDup (map cd_path plan) ->
+  copy_cmd o src dst r = (r', oc) ->
+  objs (xfs r') = objs (xfs r) /\ (forall a b, holds (xfs r) a b -> holds (xfs r') a b) /\
+  forall c, In c plan -> copy_result o r r' oc c.
+Proof. exact (copy_shares_reachable fl o src dst r r' oc plan sk). Qed.
+
+Theorem move_preserves_count_reachable fl o src dst r r' oc l :
+  xreach fl r -> move_plan src dst r = MPlanned l -> move_cmd fl o src dst r = (r', oc) ->
+  length (recs (base r')) = length (recs (base r)) /\
+  objs (xfs r') = objs (xfs r) /\ (forall a b, holds (xfs r) a b -> holds (xfs r') a b) /\
+  (forall e x d, In (e, x, d) l -> move_result r r' e x d) /\
+  (oc = Ok -> forall e x d, In (e, x, d) l -> ws_exists (xfs r') (r_path x) = false).
+Proof. exact (move_count_reachable fl o src dst r r' oc l). Qed.
+
+Theorem absent_source_ok_reachable fl o src dst r e x dg c :
+  xreach fl r ->
+  sources r src = [(e, x)] -> ends_slash dst = false -> stored r dst = false ->
+  ws_meta (xfs r) (r_path x) = None ->
+  r_digest x = Some dg -> extension dst = extension (r_path x) -> holds (xfs r) (cache_addr (r_path x) dg) c ->
+  ws_lexists (xfs r) dst = false ->
+  exists r', copy_cmd o src dst r = (r', Ok) /\
+    (exists e' y, In (e', y) (recs (base r')) /\ copied_as o x y dst) /\
+    (c_no_recheck o = false -> ws_read (xfs r') dst = Some c).
+Proof. exact (absent_source_reachable fl o src dst r e x dg c). Qed.
+
+Theorem reachable_by_clean_runs fl h r : xreach fl r -> xrun_clean fl r h = true -> xreach fl (run_xitems fl r h).
+Proof. exact (fun X C => xrun_reach fl h r X C). Qed.
+
+(* ---- examples: the hypotheses are met by concrete, non-trivial repositories ------------------------------------------- *)
+(* a.txt (copy) and b.txt (symlink) hold the same bytes and share one object; c.txt differs *)
+Definition h_two : list xitem :=
+  [XBase (UWrite s_a_txt s_hello); XBase (XTrack t_plain [s_a_txt]);
+   XBase (UWrite s_b_txt s_hello); XBase (XTrack (t_with Symlink) [s_b_txt]);
+   XBase (UWrite s_c_txt s_other); XBase (XTrack t_plain [s_c_txt])].
+Definition r_two : xrepo := run_xitems as_is r0 h_two.
+Definition s_n_txt : bytes := [110; 46; 116; 120; 116].         (* n.txt *)
+Definition s_star_txt : bytes := [42; 46; 116; 120; 116].       (* *.txt *)
+Definition s_q_dir : bytes := [113; 47].                        (* q/ *)
+
+Example reachable_example : xreach as_is r_two.
+Proof. apply (xrun_reach as_is h_two r0); [apply xr_init|vm_compute; reflexivity]. Qed.
+Example copy_example :
+  let '(r', oc) := copy_cmd c_plain s_b_txt s_n_txt r_two in
+  oc = Ok /\ length (objs (xfs r')) = 2%nat /\ ws_read (xfs r') s_n_txt = Some s_hello /\
+  (exists e y, find_path (recs (base r')) s_n_txt = Some (e, y) /\ r_method y = Symlink /\
+               r_digest y = Some (digest_of B3 Auto s_hello)).
+Proof. vm_compute. repeat split; try reflexivity. do 2 eexists. repeat split; reflexivity. Qed.
+Example copy_glob_example :   (* three sources into a new directory *)
+  match copy_plan c_plain s_star_txt s_q_dir r_two with
+  | CPlanned plan false => length plan = 3%nat /\ snd (copy_cmd c_plain s_star_txt s_q_dir r_two) = Ok
+  | _ => False
+  end.
+Proof. vm_compute. split; reflexivity. Qed.
+Example move_example :
+  let '(r', oc) := move_cmd as_is m_plain s_a_txt s_n_txt r_two in
+  oc = Ok /\ length (recs (base r')) = 3%nat /\ find_path (recs (base r')) s_a_txt = None /\
+  wget (xfs r') s_a_txt = None /\ ws_read (xfs r') s_n_txt = Some s_hello.
+Proof. vm_compute. repeat split; reflexivity. Qed.
+Example refuses_example :     (* a.txt edited and not committed; c.txt is tracked *)
+  let r := fst (do_xitem as_is r_two (XBase (UWrite s_a_txt s_other))) in
+  copy_cmd c_plain s_a_txt s_n_txt r = (r, Err) /\ copy_cmd c_plain s_b_txt s_c_txt r = (r, Err) /\
+  move_cmd as_is m_plain s_b_txt s_c_txt r = (r, Err).
+Proof. vm_compute. repeat split; reflexivity. Qed.
+Example absent_example :
+  let r := fst (do_xitem as_is r_two (XBase (UDelete s_a_txt))) in
+  let '(r', oc) := copy_cmd c_plain s_a_txt s_n_txt r in
+  oc = Ok /\ ws_read (xfs r') s_n_txt = Some s_hello /\ ws_read (xfs r') s_a_txt = None.
+Proof. vm_compute. repeat split; reflexivity. Qed.
+
+(* ---- the known classes --------------------------------------------------------------------------------------------------- *)
+(* the full statement: WITHOUT the same-extension hypothesis of copy_result the destination of every copy in every
+   history would be materialised with the committed bytes *)
+Definition C19_full : Prop :=
+  forall fl (h : list xitem) o src dst plan sk,
+    let r := run_xitems fl r0 h in
+    copy_plan o src dst r = CPlanned plan sk -> NoDup (map cd_path plan) -> c_no_recheck o = false ->
+    forall c dg b, In c plan -> r_digest (cs_rec c) = Some dg -> holds (xfs r) (cache_addr (r_path (cs_rec c)) dg) b ->
+      ws_read (xfs (fst (copy_cmd o src dst r))) (cd_path c) = Some b.
+Definition K_cross_ext (c : cpair) : bool := negb (beqb (extension (cd_path c)) (extension (r_path (cs_rec c)))).
 
 (* P3: a destination with another extension is recorded with the source's digest, but its address is
    recomputed with the new extension: no such object, the command panics, nothing can restore it *)
-Definition h_cross : list xitem :=
-  [XBase (UWrite s_a_txt s_hello); XBase (XTrack t_plain [s_a_txt]); XCopy c_plain s_a_txt s_b_dat].
-Theorem cross_ext_refuted :
-  let r := run_xitems as_is r0 (removelast h_cross) in
-  let '(r', oc) := do_xitem as_is r (XCopy c_plain s_a_txt s_b_dat) in
+Definition h_cross : list xitem := [XBase (UWrite s_a_txt s_hello); XBase (XTrack t_plain [s_a_txt])].
+Theorem cross_ext_refuted : ~ C19_full.
+Proof.
+  intros F.
+  specialize (F as_is h_cross c_plain s_a_txt s_b_dat [plan_pair (run_xitems as_is r0 h_cross) (mk_frec s_a_txt (Some (6%N, 2%N)) (Some (digest_of B3 Auto s_hello)) [digest_of B3 Auto s_hello] Copy Auto) s_b_dat] false).
+  cbv zeta in F.
+  assert (P : copy_plan c_plain s_a_txt s_b_dat (run_xitems as_is r0 h_cross) =
+              CPlanned [plan_pair (run_xitems as_is r0 h_cross) (mk_frec s_a_txt (Some (6%N, 2%N)) (Some (digest_of B3 Auto s_hello)) [digest_of B3 Auto s_hello] Copy Auto) s_b_dat] false)
+    by (vm_compute; reflexivity).
+  specialize (F P).
+  assert (ND : NoDup (map cd_path [plan_pair (run_xitems as_is r0 h_cross) (mk_frec s_a_txt (Some (6%N, 2%N)) (Some (digest_of B3 Auto s_hello)) [digest_of B3 Auto s_hello] Copy Auto) s_b_dat]))
+    by (constructor; [intros []|constructor]).
+  specialize (F ND eq_refl _ (digest_of B3 Auto s_hello) s_hello (or_introl eq_refl) eq_refl).
+  assert (H : holds (xfs (run_xitems as_is r0 h_cross)) (cache_addr s_a_txt (digest_of B3 Auto s_hello)) s_hello).
+  { exists 1%N. eexists. vm_compute. repeat split; reflexivity. }
+  specialize (F H). vm_compute in F. discriminate.
+Qed.
+Example cross_ext_witness :      (* ... and what happens instead *)
+  let r := run_xitems as_is r0 h_cross in
+  let '(r', oc) := copy_cmd c_plain s_a_txt s_b_dat r in
   oc = Panic /\
   exists e x d, find_path (recs (base r')) s_b_dat = Some (e, x) /\ r_digest x = Some d /\
                 obj_exists (xfs r') (cache_addr s_b_dat d) = false /\ ws_read (xfs r') s_b_dat = None.
 Proof. vm_compute. split; [reflexivity|]. do 3 eexists. repeat split; reflexivity. Qed.
+(* outside the class: copy_shares_object (copy_result carries the hypothesis
+   extension (cd_path c) = extension (r_path (cs_rec c)), i.e. K_cross_ext c = false) *)
+Lemma K_cross_ext_false c : K_cross_ext c = false -> extension (cd_path c) = extension (r_path (cs_rec c)).
+Proof. unfold K_cross_ext. destruct (beqb_spec (extension (cd_path c)) (extension (r_path (cs_rec c)))); [auto|discriminate]. Qed.
+
+(* move of a copy-method file whose source is absent: the code as it is errors out after the record was moved
+   (fixed_mv_absent = false), the repaired code rechecks the destination *)
+Definition h_absent : list xitem := [XBase (UWrite s_a_txt s_hello); XBase (XTrack t_plain [s_a_txt]); XBase (UDelete s_a_txt)].
+Theorem move_absent_refuted :
+  let r := run_xitems as_is r0 h_absent in
+  let '(r', oc) := move_cmd as_is m_plain s_a_txt s_n_txt r in
+  oc = Err /\ ws_read (xfs r') s_n_txt = None /\ (exists ex, find_path (recs (base r')) s_n_txt = Some ex).
+Proof. vm_compute. repeat split; try reflexivity. eexists; reflexivity. Qed.
+Example move_absent_fixed :
+  let r := run_xitems all_fixed r0 h_absent in
+  let '(r', oc) := move_cmd all_fixed m_plain s_a_txt s_n_txt r in
+  oc = Ok /\ ws_read (xfs r') s_n_txt = Some s_hello /\ find_path (recs (base r')) s_a_txt = None.
+Proof. vm_compute. repeat split; reflexivity. Qed.
+
+Print Assumptions copy_shares_object.
+Print Assumptions copy_plans_sources.
+Print Assumptions move_preserves_count.
+Print Assumptions refuses.
+Print Assumptions absent_source_ok.
+Print Assumptions copy_shares_object_reachable.
+Print Assumptions move_preserves_count_reachable.
+Print Assumptions absent_source_ok_reachable.
+Print Assumptions reachable_by_clean_runs.
 Print Assumptions cross_ext_refuted.
+Print Assumptions move_absent_refuted.
